@@ -10,7 +10,7 @@ from core import Case
 import gen
 
 PID = "C05"
-LEAN_MODULES = ["MirProofs.Props.C05"]
+LEAN_MODULES = ["MirProofs.Props.C05", "MirProofs.Props.C05_Transcription"]
 RULE = ("bipartite graphs enumerated exhaustively (quick: all graphs up to 3x4 vertices, thorough: up to 4x5) "
         "and drawn at random up to 12x12 (thorough 40x40) incl. greedy-defeating gadgets; event sets on the "
         "1/32 s lattice with duplicates and pairs exactly at the window edge; a case is non-trivial when the "
@@ -156,9 +156,20 @@ def suite_mod_distance(rng, tier, shard, nshards):
                    tag="mod %d" % m, info={"a": str(a), "b": str(b), "n": m})
 
 
+from suites import transcription as _TR, multipitch as _MP  # noqa: E402
+
 SUITES = {"exhaustive_graphs": suite_exhaustive, "random_graphs": suite_random,
           "match_events": suite_match_events, "fast_hit_windows": suite_fast_hit_windows,
-          "mod_distance": suite_mod_distance}
+          "mod_distance": suite_mod_distance,
+          # note matching: pairings returned by the real match_notes / match_note_onsets / match_note_offsets go through
+          # the proved checker against the model's feasibility graph (onset / pitch / offset criteria, strict, offset_ratio)
+          "transcription.match_notes": _TR.SUITES["transcription.match_notes"],
+          "transcription.match_onsets_offsets": _TR.SUITES["transcription.match_onsets_offsets"],
+          "transcription.check_pairs": _TR.SUITES["transcription.check_pairs"],
+          "transcription.bipartite_match": _TR.SUITES["transcription.bipartite_match"],
+          "transcription_velocity.scores": _TR.SUITES["transcription_velocity.scores"],
+          # multipitch per-frame true positives (raw and chroma-wrapped windows)
+          "multipitch.num_true_positives": _MP.SUITES["mp_num_true_positives"]}
 
 
 # ---------------------------------------------------------------------------------------------
@@ -285,9 +296,17 @@ ORACLES = {"util._bipartite_match": gen_bipartite, "util.match_events": gen_matc
 
 
 def classify(suite, d):
-    i = d["info"]
+    i = d.get("info") or {}
+    if suite.startswith("transcription"):
+        from props import t_transcription
+        return t_transcription.classify(suite, d)
     if suite in ("exhaustive_graphs", "random_graphs"):
         return "util._bipartite_match", {"adj": i["adj"]}
     if suite in ("match_events", "fast_hit_windows"):
         return "util.match_events", {"ref": i["ref"], "est": i["est"], "window": i["window"]}
     return None
+
+from props import _relational  # noqa: E402
+_xc, _xo = _relational.extra(PID)
+CHECKERS.update(_xc)
+ORACLES.update(_xo)
